@@ -139,3 +139,42 @@ void h_ren_position(void)
 	__CPROVER_assert(0, "canary");
 #endif
 }
+
+/* ================================================================== ren_noeol: keep the cursor off the line terminator (C07, C17) */
+/* the line is abstract: g_slen characters, the last one is the newline (lines of a buffer end in
+ * exactly one newline); uc_chr enters with its contract from the uc units: the position of
+ * character `off`.  The bytes of the line are not addressable by character index - a byte-indexed
+ * read is outside the object handed in. */
+struct ghost_ne { int asked, calls; } NE;
+static char g_chr[2];
+char *uc_chr(char *s, int off)
+{
+	__CPROVER_assert(s != 0 && 0 <= off && off < g_slen, "uc_chr: an existing character is asked for");
+	NE.asked = off;
+	NE.calls++;
+	char c = nondet_char();
+	__CPROVER_assume(c != '\n' && c != 0);
+	g_chr[0] = off == g_slen - 1 ? '\n' : c;
+	return g_chr;
+}
+int ren_noeol_frame_contract(char *s, int o)
+__CPROVER_assigns(NE, __CPROVER_object_whole(g_chr))
+;
+void h_ren_noeol(void)
+{
+	char line[1];
+	int o = nondet_int(), has = nondet_bool();
+	GHOST_INIT();
+	g_slen = nondet_int();
+	__CPROVER_assume(has ? (1 <= g_slen && g_slen <= 0x7ffffff0) : g_slen == 0);
+	__CPROVER_assume(o >= 0);
+	NE.calls = 0;
+	int r = ren_noeol(has ? line : (char *) 0, o);
+	int n = g_slen;
+	__CPROVER_assert(0 <= r && r <= o && (n == 0 ? r == 0 : r <= n - 1), "ren_noeol: the offset is clamped into the line, never moved right");
+	__CPROVER_assert(n >= 2 ==> r <= n - 2, "ren_noeol: never on the line terminator of a non-empty line");
+	__CPROVER_assert(r == (o <= n - 2 ? o : n >= 2 ? n - 2 : 0), "ren_noeol: an offset on a character other than the terminator is kept, anything else goes to the last such character");
+#ifdef CANARY
+	__CPROVER_assert(0, "canary");
+#endif
+}
